@@ -2,7 +2,7 @@
 // scripts against the real code.  Not a proof: Kani cannot finish these harnesses (the drop glue of
 // std::io::Error recurses through `dyn Error` and explodes in CBMC) and Verus rejects the
 // `loop { ..; break r }` expansion of retry_eintr!.  Bound: scripts of <= 4 entries over
-// {Data(1..=8), Zero, Interrupted, Hard}, every (addr, count) in 0..=8 x 0..=9, both forms.
+// {Data(1..=8), Zero, Interrupted, Hard (ErrorKind::Other), Again (ErrorKind::WouldBlock)}, every (addr, count) in 0..=8 x 0..=9, both forms.
 // The oracle and the window checks are the ones of /verif/kani/io.rs (data-free window recording)
 // plus real byte movement.
 use std::io::ErrorKind;
@@ -10,7 +10,7 @@ use vm_memory::bitmap::BitmapSlice;
 use vm_memory::{Bytes, ReadVolatile, VolatileMemory, VolatileMemoryError, VolatileSlice, WriteVolatile};
 
 #[derive(Clone, Copy, Debug, PartialEq)]
-enum Ent { Data(usize), Zero, Interrupted, Hard }
+enum Ent { Data(usize), Zero, Interrupted, Hard, Again }
 
 struct Script<'a> { script: &'a [Ent], i: usize, done: usize, base: usize, addr: usize, count: usize, src: [u8; 16], sink: Vec<u8>, bad: Option<String> }
 impl<'a> Script<'a> {
@@ -22,6 +22,8 @@ impl<'a> Script<'a> {
         match e {
             Ent::Interrupted => (Err(VolatileMemoryError::IOError(std::io::Error::from(ErrorKind::Interrupted))), 0),
             Ent::Hard => (Err(VolatileMemoryError::IOError(std::io::Error::from(ErrorKind::Other))), 0),
+            // a non-blocking stream that is not ready: an error like any other (only EINTR is retried)
+            Ent::Again => (Err(VolatileMemoryError::IOError(std::io::Error::from(ErrorKind::WouldBlock))), 0),
             Ent::Zero => (Ok(0), 0),
             Ent::Data(k) => { let n = k.min(len); (Ok(n), n) }
         }
@@ -52,6 +54,7 @@ fn oracle(script: &[Ent], count: usize, exact: bool) -> (usize, u8) {
         match e {
             Ent::Interrupted => {}
             Ent::Hard => return (total, 2),
+            Ent::Again => return (total, 3),
             Ent::Zero => return (total, 1),
             Ent::Data(k) => {
                 let n = k.min(count - total);
@@ -101,7 +104,8 @@ fn one(script: &[Ent], addr: usize, count: usize, exact: bool, write_dir: bool) 
         (Ok(_), 0, true) => Ok(()),
         (Err(e), 1, true) if kind_of(e) == Some(eof) => Ok(()),
         (Err(e), 2, _) if kind_of(e) == Some(ErrorKind::Other) => Ok(()),
-        (Ok(n), o, false) if o != 2 && *n == want => Ok(()),
+        (Err(e), 3, _) if kind_of(e) == Some(ErrorKind::WouldBlock) => Ok(()),
+        (Ok(n), o, false) if o != 2 && o != 3 && *n == want => Ok(()),
         _ => Err(format!("result {:?} does not match outcome {} (want {} bytes)", res.as_ref().map_err(|e| format!("{:?}", e)), outcome, want)),
     }
 }
@@ -109,7 +113,7 @@ fn one(script: &[Ent], addr: usize, count: usize, exact: bool, write_dir: bool) 
 #[test]
 fn enumerate_scripts() {
     let maxk: usize = std::env::var("VERIF_SCRIPT_LEN").ok().and_then(|v| v.parse().ok()).unwrap_or(3);
-    let mut alphabet = vec![Ent::Zero, Ent::Interrupted, Ent::Hard];
+    let mut alphabet = vec![Ent::Zero, Ent::Interrupted, Ent::Hard, Ent::Again];
     for k in 1..=8 { alphabet.push(Ent::Data(k)); }
     let mut cases = 0u64;
     let mut distinct = 0u64;
@@ -117,7 +121,7 @@ fn enumerate_scripts() {
     let mut script: Vec<Ent> = Vec::new();
     fn rec(script: &mut Vec<Ent>, alphabet: &[Ent], maxk: usize, cases: &mut u64, distinct: &mut u64, fails: &mut Vec<String>) {
         // run this script
-        let nontrivial = script.iter().any(|e| matches!(e, Ent::Interrupted | Ent::Hard)) || script.iter().filter(|e| matches!(e, Ent::Data(_))).count() >= 2;
+        let nontrivial = script.iter().any(|e| matches!(e, Ent::Interrupted | Ent::Hard | Ent::Again)) || script.iter().filter(|e| matches!(e, Ent::Data(_))).count() >= 2;
         for addr in 0..=8usize { for count in 0..=9usize { for exact in [false, true] { for wd in [false, true] {
             *cases += 1;
             if nontrivial { *distinct += 1; }
@@ -132,7 +136,9 @@ fn enumerate_scripts() {
     rec(&mut script, &alphabet, maxk, &mut cases, &mut distinct, &mut fails);
     println!("CASES {}", cases);
     println!("DISTINCT {}", distinct);
-    for f in &fails { println!("FAIL: C14 {}", f); }
+    // C13's exact variants ("succeed precisely when std's read_exact / write_all would", "move the same
+    // bytes") are decided by the same enumeration
+    for f in &fails { println!("FAIL: C14 {}", f); println!("FAIL: C13 {}", f); }
     assert!(fails.is_empty());
 }
 
